@@ -47,7 +47,7 @@ def run_c16(ctx):
                 "enabling spellings of client_stats in both sources; the real binary started with num_workers = 1 and cores + 3 from both sources, worker threads counted")
     vlib.prepare(ctx, need_bins=True)
     grid = [-70000, -256, -1, 0, 1, 2, 32, 49, 50, 51, 63, 64, 65, 100, 254, 255, 256, 257, 300, 1000, 8686, 65534, 65535,
-            65536, 65537, 70000, 2**31 - 1, 2**31, 2**32 - 1, 2**32, 2**32 + 1, 2**63 - 1]
+            65536, 65537, 70000, 2**31 - 1, 2**31, 2**32 - 1, 2**32, 2**32 + 1, 2**63 - 1, 2**63, 2**64 - 1, 2**64]
     base = [("interface", "127.0.0.1"), ("port", 8686), ("seed", SEED)]
     cases = []
     for src in ("File", "Env"):
@@ -85,6 +85,8 @@ def run_c16(ctx):
     for (key, z), d in by_kz.items():
         if key == "status_interval" and z > 65535:
             continue
+        if key == "num_workers" and z > 2**63 - 1:
+            continue      # a literal above the YAML integer range is not an integer for the file loader
         if len(d) == 2 and d["File"] != d["Env"]:
             ctx.violation("property", "%s = %d: file gives %s but environment gives %s" % (key, z, d["File"], d["Env"]),
                           {"cmd": "config", "key": key, "value": z})
@@ -123,11 +125,189 @@ def run_c16(ctx):
         else:
             ctx.nontriv("extra:%s:%s" % (src, why))
     whole_config_grid(ctx, workdir)
+    text_level_loaders(ctx, workdir)
     running_server_uses_written_values(ctx, workdir)
     import shutil
     subprocess.run(["chmod", "-R", "u+w", workdir])
     shutil.rmtree(workdir, ignore_errors=True)
     proof_verdict(ctx)
+
+
+# ---------------------------------------------------------------- the loaders at the level of the TEXT
+ENV_MAX = {"port": 65535, "batch_size": 255, "status_interval": 65535, "health_check_port": 65535,
+           "fault_percentage": 255, "num_workers": 2**64 - 1}
+FILE_MAX = {"port": 65535, "batch_size": 255, "status_interval": 2**63 - 1, "health_check_port": 65535,
+            "fault_percentage": 255, "num_workers": 2**63 - 1}
+
+
+def _int_texts(rng, mx):
+    """texts for an integer-valued setting: mostly valid decimal, plus the shapes str::parse refuses"""
+    vals = [0, 1, 2, 50, 64, 255, 256, 300, 8686, 65535, 65536, 70000, 2**31, 2**32, 2**63 - 1, 2**63, 2**64 - 1, 2**64, 10**30]
+    out = [str(v) for v in vals]
+    small = vals[:8]
+    out += ["+%d" % rng.choice(vals), "-%d" % rng.choice(vals), "-0", "+0", "00%d" % rng.choice(small), " %d" % rng.choice(small),
+            "%d " % rng.choice(small), "", "+", "-", "1_000", "0x10", "1e3", "12a", "٣", "1.0", "++1"]
+    if mx:
+        out += [str(mx), str(mx + 1), str(mx - 1)]
+    return out
+
+
+def _parse_kv(line):
+    return dict(tok.split("=", 1) for tok in line.split()[1:] if "=" in tok)
+
+
+def text_level_loaders(ctx, workdir):
+    """FileConfig::new / EnvironmentConfig::new against Model/LoadModel.v on the same TEXT: YAML files (the
+    model is given the values yaml-rust produced for the file) and environment strings. Besides the tie, an
+    independent oracle on the integer settings: a configuration that loads carries, for each integer
+    variable that is set, the number its text denotes (strict decimal, optional '+'), which fits the type."""
+    import re, binascii
+    rng = ctx.rng
+    hexs = lambda b: binascii.hexlify(b).decode() if b else "-"
+    # ---- environment cases
+    env_cases = []
+    for key, var in KEYS.items():
+        for t in _int_texts(rng, ENV_MAX[key]):
+            env_cases.append({var: t})
+    seeds = [SEED, SEED.upper(), SEED[:10].upper() + SEED[10:], SEED[:-1], SEED + "0", "zz" + SEED[2:], "", " " + SEED, SEED + "\n"]
+    for sd in seeds:
+        env_cases.append({"ROUGHENOUGH_SEED": sd, "ROUGHENOUGH_PORT": "2002"})
+    for cs in ("on", "ON", "yes", "YeS", "oN", "off", "true", "1", "", "yes ", "ön", "ONN"):
+        env_cases.append({"ROUGHENOUGH_CLIENT_STATS": cs})
+    for kms in ("plaintext", "Plaintext", "arn:aws:kms:x", "arn:", "ar", "projects/p/locations/l", "projects", "projects/", "", "plaintext "):
+        env_cases.append({"ROUGHENOUGH_KMS_PROTECTION": kms})
+    for pd in ("/tmp", "", "relative/dir", "/a b"):
+        env_cases.append({"ROUGHENOUGH_PERSISTENCE_DIRECTORY": pd})
+    env_cases.append({"ROUGHENOUGH_INTERFACE": "127.0.0.1"})
+    env_cases.append({})
+    for _ in range(40 if ctx.tier == "quick" else 400):
+        c = {}
+        for key, var in rng.sample(sorted(KEYS.items()), rng.randint(1, 4)):
+            c[var] = rng.choice(_int_texts(rng, ENV_MAX[key]))
+        if rng.random() < 0.5:
+            c["ROUGHENOUGH_SEED"] = rng.choice(seeds)
+        env_cases.append(c)
+
+    def run_env(c):
+        env = {k: v for k, v in os.environ.items() if not k.startswith("ROUGHENOUGH_")}
+        env.update(c)
+        p = subprocess.run([vlib.HARNESS, "loadcfg", "env"], env=env, capture_output=True, text=True, timeout=60)
+        return p.stdout.strip().split("\n")
+    with ThreadPoolExecutor(max_workers=vlib.NCPU) as ex:
+        env_out = list(ex.map(run_env, env_cases))
+    lines = []
+    for c, out in zip(env_cases, env_out):
+        cores = out[0].split()[1] if out and out[0].startswith("CORES") else "1"
+        vars_ = ",".join("%s=%s" % (hexs(k.encode()), hexs(v.encode())) for k, v in sorted(c.items())) or "-"
+        lines.append("envload %s %s" % (cores, vars_))
+    model = vlib.run_model(lines)
+    ctx.evaluations += len(env_cases)
+    strict = re.compile(r"^\+?[0-9]+$")
+    for c, out, lm, ln in zip(env_cases, env_out, model, lines):
+        got = out[-1] if out else "NO-OUTPUT"
+        rep = {"cmd": "loadcfg-env", "env": c, "impl": got, "model": lm, "model_line": ln}
+        ctx.count("env-text:" + got.split()[0])
+        if got.startswith("OK"):
+            d = _parse_kv(got)
+            bad = None
+            for key, var in KEYS.items():
+                if var in c:
+                    t = c[var]
+                    if not strict.match(t) or not t.isascii():
+                        bad = "%s=%r is not a decimal number but the configuration loads (%s=%s)" % (var, t, OUTKEY[key], d[OUTKEY[key]])
+                    elif int(t) != int(d[OUTKEY[key]]):
+                        bad = "%s=%r is loaded as %s" % (var, t, d[OUTKEY[key]])
+                    elif int(t) > ENV_MAX[key]:
+                        bad = "%s=%r exceeds the field's type but loads" % (var, t)
+            if bad:
+                ctx.violation("property", bad, rep)
+                continue
+        if got != lm:
+            ctx.violation("tie", "environment loader and its model disagree on the same variables: impl %s / model %s" % (got[:120], lm[:120]), rep)
+        else:
+            ctx.traces_validated += 1
+            if not got.startswith("OK") or len(c) > 1:
+                ctx.nontriv("envtext:" + rt.fnv64(repr(sorted(c.items())).encode()))
+    ctx.sample({"env": env_cases[5], "impl": env_out[5][-1][:200], "model": model[5][:200]})
+
+    # ---- file cases
+    def yaml_of(entries):
+        return "".join("%s: %s\n" % (k, v) for k, v in entries)
+    files = []
+    for key in KEYS:
+        for t in _int_texts(rng, FILE_MAX[key]) + ['"80"', "'80'", "8.5", "true", "~", "0o17", "0b11", "[1]", "{a: 1}"]:
+            files.append(yaml_of([(key, t)]))
+    files += [yaml_of([("port", 1), ("port", 2)]), yaml_of([("port", 70000), ("port", 2)]), yaml_of([("port", 2), ("port", 70000)]),
+              "", "---\n", "port: 1\n---\nport: 2\n", "- 1\n- 2\n", "just a string\n", "1: 2\n", "? [a]\n: 1\n", "port: 1\nbogus: 2\n",
+              "Port: 1\n", "port : 1\n", "port:\n", "\tport: 1\n", "port: 1\n  batch_size: 2\n", "port: &a 5\nbatch_size: *a\n"]
+    for sd in seeds:
+        files.append(yaml_of([("seed", sd), ("port", 2002)]))
+        files.append(yaml_of([("seed", '"%s"' % sd.strip()), ("port", 2002)]))
+    files.append(yaml_of([("seed", "12" * 32)]))      # all digits: a YAML number, not a string
+    files.append(yaml_of([("seed", "12345678")]))
+    for cs in ("on", "ON", "yes", "YeS", "off", "true", "1", '"on"', "On", "y", "~"):
+        files.append(yaml_of([("client_stats", cs)]))
+    for kms in ("plaintext", "Plaintext", "arn:aws:kms:x", '"arn:"', "ar", "projects/p/locations/l", "projects", "projects/", "5"):
+        files.append(yaml_of([("kms_protection", kms)]))
+    for pd in ("/tmp", "5", '""', "relative/dir", "~"):
+        files.append(yaml_of([("persistence_directory", pd)]))
+    files.append(yaml_of([("interface", "127.0.0.1")]))
+    files.append(yaml_of([("interface", "5")]))
+    allkeys = list(KEYS) + ["interface", "seed", "client_stats", "kms_protection", "persistence_directory", "bogus"]
+    for _ in range(40 if ctx.tier == "quick" else 400):
+        es = []
+        for key in [rng.choice(allkeys) for _ in range(rng.randint(1, 5))]:
+            if key in KEYS:
+                es.append((key, rng.choice(_int_texts(rng, FILE_MAX[key])[:24])))
+            elif key == "seed":
+                es.append((key, rng.choice(seeds[:6]) or '""'))
+            else:
+                es.append((key, rng.choice(["on", "plaintext", "/tmp", "127.0.0.1", "5", "arn:x"])))
+        files.append(yaml_of(es))
+
+    def run_file(a):
+        i, text = a
+        path = os.path.join(workdir, "t%d.yaml" % i)
+        with open(path, "w") as f:
+            f.write(text)
+        env = {k: v for k, v in os.environ.items() if not k.startswith("ROUGHENOUGH_")}
+        p = subprocess.run([vlib.HARNESS, "loadcfg", "file", path], env=env, capture_output=True, text=True, timeout=60)
+        return p.stdout.strip().split("\n")
+    with ThreadPoolExecutor(max_workers=vlib.NCPU) as ex:
+        file_out = list(ex.map(run_file, enumerate(files)))
+    lines = []
+    for out in file_out:
+        cores = out[0].split()[1] if out and out[0].startswith("CORES") else "1"
+        docs = out[1][5:] if len(out) > 1 and out[1].startswith("DOCS ") else "P"
+        lines.append("fileload %s %s" % (cores, docs))
+    model = vlib.run_model(lines)
+    ctx.evaluations += len(files)
+    for text, out, lm, ln in zip(files, file_out, model, lines):
+        got = out[-1] if out else "NO-OUTPUT"
+        rep = {"cmd": "loadcfg-file", "yaml": text, "impl": got, "model": lm, "model_line": ln}
+        ctx.count("file-text:" + got.split()[0])
+        if got.startswith("OK"):
+            # oracle on single-line integer files: what is written is the integer the YAML library reads from the
+            # line (yaml-rust has its own leniencies, e.g. `++1` is 1: lexing YAML is the library's business,
+            # not the loader's); the loaded value must be that integer
+            m = re.match(r"^(\w+): (\S*)\n$", text)
+            if m and m.group(1) in KEYS:
+                key, t = m.group(1), m.group(2)
+                d = _parse_kv(got)
+                mi = re.match(r"^H:s[0-9a-f]+=i(-?[0-9]+)$", ln.split(" ", 3)[3]) if ln.count(" ") >= 3 else None
+                if mi is None:
+                    ctx.violation("property", "%s: %s is not a YAML integer but the file loads (%s=%s)" % (key, t, OUTKEY[key], d[OUTKEY[key]]), rep)
+                    continue
+                if int(mi.group(1)) != int(d[OUTKEY[key]]):
+                    ctx.violation("property", "%s: %s (the integer %s) is loaded as %s" % (key, t, mi.group(1), d[OUTKEY[key]]), rep)
+                    continue
+        if got != lm:
+            ctx.violation("tie", "file loader and its model disagree on the same YAML values: impl %s / model %s" % (got[:120], lm[:120]), rep)
+        else:
+            ctx.traces_validated += 1
+            if not got.startswith("OK") or text.count("\n") > 1:
+                ctx.nontriv("filetext:" + rt.fnv64(text.encode()))
+    ctx.sample({"yaml": files[3], "impl": file_out[3][-1][:200], "model": model[3][:200]})
 
 
 def running_server_uses_written_values(ctx, workdir):
@@ -141,7 +321,20 @@ def running_server_uses_written_values(ctx, workdir):
             rep = {"cmd": "config-run", "source": src, "num_workers": nw}
             try:
                 ready = srv.wait_ready()
-                workers = sorted({t for t in srv.threads() if t.startswith("worker-")})
+                # the workers are spawned one after the other: the first one serving does not mean the last one
+                # has been started yet, so the count is polled until it is the written one (or 15 s have passed);
+                # two more looks afterwards see a server that keeps spawning
+                import time as _t
+                t_end = _t.time() + 15
+                while True:
+                    workers = sorted({t for t in srv.threads() if t.startswith("worker-")})
+                    if len(workers) == nw or _t.time() > t_end or not ready:
+                        break
+                    _t.sleep(0.1)
+                if len(workers) == nw:
+                    for _ in range(2):
+                        _t.sleep(0.2)
+                        workers = sorted({t for t in srv.threads() if t.startswith("worker-")})
                 ctx.evaluations += 1
                 if not ready:
                     ctx.violation("property", "server with num_workers=%d (%s) did not start serving" % (nw, src), dict(rep, log=srv.log()[-800:]))
